@@ -27,13 +27,16 @@ func init() { reg.Register(&reg.Prop{ID: "C20", Run: Run, Replay: Replay}) }
 
 // In is one execution: the upload, the operation, the destination shape and the injected event.
 type In struct {
-	Kind  string   // dsc | changes
-	Op    string   // copy | move | remove
-	Names []string // listed names of the referenced files (as written in the control file)
-	Dest  string   // emptydir | samename | samename-longer | samename-samesize | regularfile | missing
-	Gone  int      // index+1 of a referenced file that does not exist at the source (0 = all present)
-	Event string   // none | fault | shortwrite | crash
-	At    int      // operation index of the event
+	Kind    string   // dsc | changes
+	Op      string   // copy | move | remove
+	Names   []string // listed names of the referenced files (as written in the control file)
+	Dest    string   // emptydir | samename | samename-longer | samename-samesize | regularfile | missing
+	Gone    int      // index+1 of a referenced file that does not exist at the source (0 = all present)
+	Sums    []string `json:",omitempty"` // names listed ONLY in Checksums-Sha256 / Checksums-Sha1 (not in Files)
+	NoFiles bool     `json:",omitempty"` // the control file has no Files field at all
+	Then    string   `json:",omitempty"` // a second operation on the same handle after the first succeeded: remove | move | copy
+	Event   string   // none | fault | shortwrite | crash
+	At      int      // operation index of the event
 }
 
 const ctlBase = "hello_1.0-1"
@@ -62,6 +65,26 @@ func content(name string) string {
 func md5hex(i int) string { return fmt.Sprintf("%032x", i+1) }
 
 func (in In) controlText() string {
+	t := in.controlTextFiles()
+	if in.NoFiles {
+		t = t[:strings.Index(t, "Files:")]
+	}
+	if len(in.Sums) > 0 {
+		var sb strings.Builder
+		sb.WriteString(t + "Checksums-Sha256:\n")
+		for i, n := range in.Sums {
+			fmt.Fprintf(&sb, " %064x %d %s\n", i+1, len(content(n)), n)
+		}
+		sb.WriteString("Checksums-Sha1:\n")
+		for i, n := range in.Sums {
+			fmt.Fprintf(&sb, " %040x %d %s\n", i+1, len(content(n)), n)
+		}
+		t = sb.String()
+	}
+	return t
+}
+
+func (in In) controlTextFiles() string {
 	var sb strings.Builder
 	if in.Kind == "changes" {
 		sb.WriteString("Format: 1.8\nSource: hello\nBinary: hello\nArchitecture: source\nVersion: 1.0-1\nDistribution: unstable\nMaintainer: A <a@b>\nFiles:\n")
@@ -101,7 +124,7 @@ func snapshot(root string) tree {
 
 func features(in In) []string {
 	var f []string
-	for _, n := range in.Names {
+	for _, n := range append(append([]string{}, in.Names...), in.Sums...) {
 		switch {
 		case strings.Contains(n, ".."):
 			f = append(f, "listed-name-contains-dotdot")
@@ -122,14 +145,16 @@ func features(in In) []string {
 }
 
 type result struct {
-	ops     []verifhook.Op
-	err     error
-	crashed bool
-	panicV  string
-	before  tree
-	after   tree
-	root    string
-	fname   string // handle's Filename after the call
+	ops      []verifhook.Op
+	err      error
+	crashed  bool
+	panicV   string
+	before   tree
+	after    tree
+	root     string
+	fname    string // handle's Filename after the call
+	firstOps int
+	err2     error
 }
 
 // execute builds a fresh tree, performs the operation with the event injected, and snapshots the result.
@@ -148,6 +173,11 @@ func execute(in In) (*result, error) {
 		if in.Gone == i+1 {
 			continue
 		}
+		p := resolve(src, n)
+		os.MkdirAll(filepath.Dir(p), 0o755)
+		os.WriteFile(p, []byte(content(n)), 0o644)
+	}
+	for _, n := range in.Sums {
 		p := resolve(src, n)
 		os.MkdirAll(filepath.Dir(p), 0o755)
 		os.WriteFile(p, []byte(content(n)), 0o644)
@@ -236,6 +266,19 @@ func execute(in In) (*result, error) {
 		case "remove":
 			res.err = doRemove()
 		}
+		if res.err == nil && in.Then != "" {
+			res.firstOps = len(res.ops)
+			dst2 := filepath.Join(root, "incoming", "dst2")
+			os.MkdirAll(dst2, 0o755)
+			switch in.Then {
+			case "remove":
+				res.err2 = doRemove()
+			case "move":
+				res.err2 = doMove(dst2)
+			case "copy":
+				res.err2 = doCopy(dst2)
+			}
+		}
 	}()
 	res.fname = *fname
 	res.after = snapshot(root)
@@ -248,6 +291,88 @@ func rel(root, p string) string {
 		return p
 	}
 	return r
+}
+
+// checkSequence: two operations on the same handle. After a successful Copy/Move the handle points at the new
+// location, so the second operation acts on the files THERE; the originals of a Copy stay where they are.
+func checkSequence(scen string, in In) ([]*mc.Violation, *result) {
+	res, err := execute(in)
+	if err != nil {
+		return []*mc.Violation{mc.V(scen, "harness-setup", in, "tree built", err.Error())}, nil
+	}
+	var vs []*mc.Violation
+	bad := func(clause, want, got string) { vs = append(vs, mc.V(scen, clause, in, want, got, features(in)...)) }
+	if res.panicV != "" {
+		bad("operation-returns", "no panic", res.panicV)
+		return vs, res
+	}
+	if res.err != nil || res.err2 != nil {
+		bad("operation-succeeds", "both operations succeed on a well-formed upload", fmt.Sprint(res.err, " / ", res.err2))
+		return vs, res
+	}
+	src, dst, dst2 := filepath.Join("incoming", "src"), filepath.Join("incoming", "dst"), filepath.Join("incoming", "dst2")
+	all := append([]string{in.ctlName()}, in.Names...)
+	have := func(dir, n string) bool { _, ok := res.after[filepath.Join(dir, filepath.Base(n))]; return ok }
+	same := func(dir, n string) bool {
+		want := content(n)
+		if n == in.ctlName() {
+			want = in.controlText()
+		}
+		return res.after[filepath.Join(dir, filepath.Base(n))] == want
+	}
+	expect := func(dir string, present bool, why string) {
+		for _, n := range all {
+			if present && !same(dir, n) {
+				bad("second-operation-acts-on-the-new-location", why, "missing or different in "+dir+": "+n)
+			}
+			if !present && have(dir, n) {
+				bad("second-operation-acts-on-the-new-location", why, "still present in "+dir+": "+n)
+			}
+		}
+	}
+	switch in.Op + ">" + in.Then {
+	case "copy>remove":
+		expect(src, true, "originals untouched by Copy then Remove")
+		expect(dst, false, "the copies are what Remove deletes")
+	case "copy>move":
+		expect(src, true, "originals untouched by Copy then Move")
+		expect(dst, false, "the copies are moved on")
+		expect(dst2, true, "the copies arrive in the second destination")
+	case "copy>copy":
+		expect(src, true, "originals untouched")
+		expect(dst, true, "first copy stays")
+		expect(dst2, true, "second copy complete")
+	case "move>remove":
+		expect(src, false, "moved away")
+		expect(dst, false, "removed at the new location")
+	case "move>move":
+		expect(src, false, "moved away")
+		expect(dst, false, "moved on")
+		expect(dst2, true, "arrived")
+	case "move>copy":
+		expect(src, false, "moved away")
+		expect(dst, true, "stays at the first destination")
+		expect(dst2, true, "copied to the second destination")
+	}
+	// containment for the whole sequence
+	for _, op := range res.ops {
+		for _, p := range []string{op.Path, op.Path2} {
+			if p == "" {
+				continue
+			}
+			r := filepath.Clean(rel(res.root, p))
+			ok := false
+			for _, d := range []string{src, dst, dst2} {
+				if r == d || strings.HasPrefix(r, d+string(filepath.Separator)) {
+					ok = true
+				}
+			}
+			if !ok {
+				bad("stays-in-directory", "operations only inside the upload's directories", op.Kind+" "+r)
+			}
+		}
+	}
+	return vs, res
 }
 
 // check evaluates invariants I1..I5 on one execution.
@@ -510,6 +635,16 @@ func Run(r *mc.Run) {
 			}
 		}
 	}
+	// names listed only in the checksum fields (with and without a Files field): whatever the library does with them, it
+	// must stay inside the two directories
+	for _, kind := range []string{"dsc", "changes"} {
+		for _, op := range []string{"copy", "move", "remove"} {
+			for _, sums := range [][]string{{"hello_1.0.orig.tar.gz"}, {"../x.tar", "hello_1.0.orig.tar.gz"}, {"hello_1.0.orig.tar.gz", "../../y.tar"}, {"../src-keys/k.key"}} {
+				bases = append(bases, In{Kind: kind, Op: op, Names: nil, Dest: "emptydir", Event: "none", Sums: sums, NoFiles: true})
+				bases = append(bases, In{Kind: kind, Op: op, Names: []string{"hello_1.0-1.debian.tar.xz"}, Dest: "emptydir", Event: "none", Sums: sums})
+			}
+		}
+	}
 	r.Scenario("fault-and-crash-at-every-operation", map[string]interface{}{"base_cases": len(bases), "events": "none / EIO at op k / short write at op k / crash before op k, for every k"}, len(bases), func(i int, st *mc.Stats) bool {
 		base := bases[i]
 		run := func(in In) *result {
@@ -571,6 +706,34 @@ func Run(r *mc.Run) {
 		}
 		return true
 	})
+	// two operations on one handle
+	var seqs []In
+	for _, kind := range []string{"dsc", "changes"} {
+		for _, first := range []string{"copy", "move"} {
+			for _, then := range []string{"remove", "move", "copy"} {
+				for _, names := range plain[1:] {
+					seqs = append(seqs, In{Kind: kind, Op: first, Names: names, Dest: "emptydir", Event: "none", Then: then})
+				}
+			}
+		}
+	}
+	r.Scenario("two-operations-on-one-handle", map[string]interface{}{"sequences": len(seqs), "first": "copy | move", "then": "remove | move | copy"}, len(seqs), func(i int, st *mc.Stats) bool {
+		st.Evals++
+		st.Traces++
+		st.Nontrivial++
+		vs, res := checkSequence("two-operations-on-one-handle", seqs[i])
+		if res != nil {
+			st.Transitions += int64(len(res.ops))
+		}
+		if len(vs) == 0 {
+			st.Class(seqs[i].Op + ">" + seqs[i].Then + ":ok")
+		}
+		for _, v := range vs {
+			st.Violate(v)
+			st.Class(v.Clause)
+		}
+		return true
+	})
 	_ = errors.New
 }
 
@@ -578,6 +741,10 @@ func Replay(scenario string, raw json.RawMessage) []*mc.Violation {
 	var in In
 	if json.Unmarshal(raw, &in) != nil {
 		return nil
+	}
+	if in.Then != "" {
+		vs, _ := checkSequence(scenario, in)
+		return vs
 	}
 	vs, _ := check(scenario, in)
 	return vs
